@@ -94,7 +94,18 @@ fn generate_e(seed: u64, quick: bool) -> Value {
             "(define-library (lib {s})\n  (import (scheme base) (scheme write){dep})\n  (export show-{s})\n  (begin\n    (display \"<<{load}>>\")\n    (define (show-{s} x) (display \"<<{call}>>\") x)))\n",
             s = s, dep = dep, load = load, call = call
         );
-        libs.push(json!({"short": s, "text": text, "call_marker": call, "load_marker": load}));
+        // the second library is sometimes unusable: the import that reaches it is the failing form
+        let broken = if i == 1 && g.rng.chance(1, 4) { *g.rng.pick(&["body", "syntax", "name"]) } else { "" };
+        let text = match broken {
+            "body" => text.replacen("(define (show-", "(car 5)\n    (define (show-", 1),
+            "syntax" => {
+                let t = text.trim_end();
+                format!("{}\n", &t[..t.len() - 1])
+            }
+            "name" => text.replacen("(define-library (lib b)", "(define-library (lib b-elsewhere)", 1),
+            _ => text,
+        };
+        libs.push(json!({"short": s, "text": text, "call_marker": call, "load_marker": load, "broken": broken}));
         import_sets.push(format!("(lib {})", s));
         lib_load_markers.push(load);
     }
@@ -296,29 +307,37 @@ fn expected_markers(case: &Value) -> (Vec<u32>, bool) {
     let libs = case["libs"].as_array().cloned().unwrap_or_default();
     let mut loaded: Vec<String> = vec![];
     let mut out: Vec<u32> = vec![];
-    let mut load = |s: &str, out: &mut Vec<u32>, loaded: &mut Vec<String>| {
-        // a library loads its dependency first, once
-        fn go(s: &str, libs: &[Value], out: &mut Vec<u32>, loaded: &mut Vec<String>) {
+    let mut load = |s: &str, out: &mut Vec<u32>, loaded: &mut Vec<String>| -> bool {
+        // a library loads its dependency first, once; false = the load fails
+        fn go(s: &str, libs: &[Value], out: &mut Vec<u32>, loaded: &mut Vec<String>) -> bool {
             if loaded.iter().any(|l| l == s) {
-                return;
+                return true;
             }
-            loaded.push(s.to_string());
             if let Some(l) = libs.iter().find(|l| l["short"].as_str() == Some(s)) {
-                if l["text"].as_str().unwrap_or("").contains("(scheme write) (lib a)") {
-                    go("a", libs, out, loaded);
+                let broken = l["broken"].as_str().unwrap_or("");
+                if broken == "syntax" || broken == "name" {
+                    return false;
+                }
+                if l["text"].as_str().unwrap_or("").contains("(scheme write) (lib a)") && !go("a", libs, out, loaded) {
+                    return false;
                 }
                 out.push(l["load_marker"].as_u64().unwrap_or(0) as u32);
+                if broken == "body" {
+                    return false;
+                }
             }
+            loaded.push(s.to_string());
+            true
         }
-        go(s, &libs, out, loaded);
+        go(s, &libs, out, loaded)
     };
     for it in case["items"].as_array().cloned().unwrap_or_default() {
         let kind = it["kind"].as_str().unwrap_or("");
         if kind == "import" || kind == "import-lib" {
             let text = it["forms"][0].as_str().unwrap_or("").to_string();
             for s in ["a", "b"] {
-                if text.contains(&format!("(lib {})", s)) {
-                    load(s, &mut out, &mut loaded);
+                if text.contains(&format!("(lib {})", s)) && !load(s, &mut out, &mut loaded) {
+                    return (out, true);
                 }
             }
             continue;
@@ -637,6 +656,12 @@ fn execute_e(case: Value) -> RunResult {
     if let Some(it) = case["items"].as_array().and_then(|a| a.iter().find(|i| i["fails"].as_bool() == Some(true)).cloned()) {
         if model_applies {
             res.count(&format!("fault_fired.{}", it["kind"].as_str().unwrap_or("")));
+        }
+    }
+    for l in case["libs"].as_array().cloned().unwrap_or_default() {
+        let b = l["broken"].as_str().unwrap_or("");
+        if !b.is_empty() && model_applies {
+            res.count(&format!("fault_fired.library-{}", b));
         }
     }
     res.nontrivial = !got_markers.is_empty() || expect_fail == Some(true);
